@@ -17,7 +17,7 @@ QUICK = ["d1-1d", "d1-2d", "d2-push1", "d2-push2", "d2-push3", "d3-sr1", "d2-lea
 
 def one(name):
     kw = dict(progcheck.CORPORA[name])
-    for k in ("observe_all", "keep"):
+    for k in ("observe_all", "keep", "group", "final_only"):
         kw.pop(k, None)
     kw["workers"] = min(kw.get("workers", 1), 4)
     rd = tlc.new_rundir("pregen")
@@ -29,8 +29,30 @@ def one(name):
     return name, len(behs), round(time.time() - t0, 1), getattr(res, "cached", False)
 
 
+def quick_corpora():
+    """every corpus a quick tier replays (the checks' own `plans`), plus the explicit list above"""
+    import importlib
+    import pkgutil
+
+    from . import checks
+
+    names = list(QUICK)
+    for m in pkgutil.iter_modules(checks.__path__):
+        mod = importlib.import_module(f"{checks.__name__}.{m.name}")
+        fn = getattr(mod, "plans", None)
+        if fn is None:
+            continue
+        try:
+            for p in fn("quick"):
+                if p[0] in progcheck.CORPORA and p[0] not in names:
+                    names.append(p[0])
+        except Exception:
+            pass
+    return names
+
+
 def main():
-    names = sys.argv[1:] or QUICK
+    names = sys.argv[1:] or quick_corpora()
     t0 = time.time()
     with cf.ThreadPoolExecutor(max_workers=4) as ex:
         for name, n, dt, cached in ex.map(one, names):
